@@ -48,6 +48,43 @@ theorem attr_channel_exact (tag k v : Str) (htag : isName tag = true) (hk : isNa
   have hall : v.all attrCharOk = true := List.all_eq_true.mpr hv
   rw [attr_channel tag k v htag hk (fun c hc => List.all_eq_true.mp (attrCharOk_xml hall) c hc), normAttrVal_ok v hall]
 
+/-! ## 2b. total statements: with the character check of `validate_xml_document` every string is either
+rejected with a PyXFormError (and then really contains a non-XML character) or recovered -/
+
+theorem text_channel_total (tag s : Str) (htag : isName tag = true) :
+    match checkedDoc (nodeText tag s) with
+    | .ok n => parseDoc (renderDoc false n) = some (.elem tag [] (chunk false (normEol s)))
+    | .pyxformError => ∃ c ∈ s, isXmlChar c = false
+    | _ => False := by
+  unfold checkedDoc
+  by_cases h : s.all isXmlChar = true
+  · simp only [nodeText, charsValid, charsValidKids, validChars, h, List.all_nil, Bool.and_self, if_true]
+    exact text_channel tag s htag (List.all_eq_true.mp h)
+  · simp only [nodeText, charsValid, charsValidKids, validChars, h, List.all_nil, Bool.and_true, Bool.true_and]
+    simp only [Bool.false_eq_true, if_false]
+    simpa [List.all_eq_true] using h
+
+theorem attr_channel_total (tag k v : Str) (htag : isName tag = true) (hk : isName k = true) :
+    match checkedDoc (nodeAttr tag k v) with
+    | .ok n => parseDoc (renderDoc false n) = some (.elem tag [(k, normAttrVal v)] [])
+    | .pyxformError => ∃ c ∈ v, isXmlChar c = false
+    | _ => False := by
+  unfold checkedDoc
+  by_cases h : v.all isXmlChar = true
+  · simp only [nodeAttr, charsValid, charsValidKids, validChars, h, List.all_cons, List.all_nil, Bool.and_self, if_true]
+    exact attr_channel tag k v htag hk (List.all_eq_true.mp h)
+  · simp only [nodeAttr, charsValid, charsValidKids, validChars, h, List.all_cons, List.all_nil, Bool.and_true]
+    simp only [Bool.false_eq_true, if_false]
+    simpa [List.all_eq_true] using h
+
+-- a control character is rejected, not written
+example : (match checkedDoc (nodeText "label".toList ['a', Char.ofNat 1, 'b']) with | .pyxformError => true | _ => false) = true := by
+  decide
+example : (match checkedDoc (nodeAttr "bind".toList "foo".toList ['a', Char.ofNat 0xFFFE]) with | .pyxformError => true | _ => false) = true := by
+  decide
+example : (match checkedDoc (nodeText "label".toList "<b> & ]]> \r 😀".toList) with | .ok _ => true | _ => false) = true := by
+  decide
+
 /-! ## 3. the mixed channel: `insert_output_values` + `node(tag, …, toParseString=…)` -/
 
 /-- the guard of the modelled fragment: `replace_with_output` (instance() expressions) is not entered -/
@@ -374,7 +411,11 @@ example : mixedChannel exRefs "label".toList "x < ${a} & y".toList =
   mixed_one_ref exRefs _ "x < ".toList "a".toList " & y".toList "/data/a".toList (by decide) (by decide) (by decide)
     (by decide) (by decide) (by decide) (by decide)
 
--- the guards are needed.  A control character is written raw and the reader rejects the document (F4):
+-- the guards are needed.  In the mixed channel the re-parse comes before the character check: a control
+-- character next to a reference is an expat error inside `node()` (open finding F4-reparse-non-xml-char) …
+example : (match mixedChannel exRefs "label".toList ['a', Char.ofNat 1, ' ', '$', '{', 'a', '}'] with
+    | .reparseError => true | _ => false) = true := by decide +kernel
+-- … and a writer without the check would produce a document the reader rejects:
 example : parseDoc (renderDoc false (nodeText "label".toList ['a', Char.ofNat 1, 'b'])) = none := by decide +kernel
 -- an unknown name is an error, an instance() expression is outside the modelled fragment:
 example : (match mixedChannel exRefs "label".toList "x ${zz}".toList with | .pyxformError => true | _ => false) = true := by
